@@ -260,36 +260,35 @@ func (c *Ctx) eexecOperator() {
 }
 
 // scannerOperators: eexec and readstring work on the scanner on top of the scanner stack;
-// readstring skips exactly one byte (the blank after RD / -|) before the binary data.
+// readstring skips exactly one byte (the blank after RD / -|) before the binary data.  Decided on
+// the evaluator with a scanner stack of two scanners (ext_b.go, ext_x4.go): which scanner the
+// operator starts decryption on and hands to the nested run, which scanner readstring asks for
+// bytes and in which order — however the top of the stack is taken (index expression, helper).
 func (c *Ctx) scannerOperators(ia *interpAnchors, reg *registry, rule string, ops ...string) {
 	for _, op := range ops {
 		g := reg.op("systemdict", op)
-		okTop := false
-		var scannerVal ssa.Value
-		eachInstr(g, func(ins ssa.Instruction) {
-			if ld, ok := ins.(*ssa.UnOp); ok && ld.Op == token.MUL {
-				if ix, ok := ld.X.(*ssa.IndexAddr); ok && isFieldLoad(ix.X, ia.T, c.fld("intp.scanners")) {
-					if bo, ok := ix.Index.(*ssa.BinOp); ok && bo.Op == token.SUB && lenOfField(bo.X, ia.T, c.fld("intp.scanners")) {
-						if k, isC := constInt(bo.Y); isC && k == 1 {
-							okTop = true
-							scannerVal = ld
-						}
-					}
+		switch op {
+		case "eexec":
+			o := c.eexecCellB(true, "nil", 0)
+			okTop := o.why == "" && o.begun == 1 && o.begunOn == "scanner1" && o.runOn == "scanner1"
+			c.check(okTop, rule, c.fname(g), op+" works on the scanner on top of the scanner stack", g.Pos(), "scanners[len-1]", op+" does not take its bytes from the current (decrypting) scanner "+o.why)
+		default:
+			o := c.readstringCellX4(g)
+			okTop := o.why == "" && len(o.calls) > 0
+			for _, k := range o.calls {
+				if k.on != "scanner1" {
+					okTop = false
 				}
 			}
-		})
-		c.check(okTop, rule, c.fname(g), op+" works on the scanner on top of the scanner stack", g.Pos(), "scanners[len-1]", op+" does not take its bytes from the current (decrypting) scanner")
-		if op == "readstring" && scannerVal != nil {
-			// calls on the scanner, in order
-			var seq []string
-			eachInstr(g, func(ins ssa.Instruction) {
-				if call, ok := ins.(ssa.CallInstruction); ok {
-					if sc := call.Common().StaticCallee(); sc != nil && sc.Signature.Recv() != nil && len(call.Common().Args) > 0 && call.Common().Args[0] == scannerVal {
-						seq = append(seq, sc.Name())
-					}
+			c.check(okTop, rule, c.fname(g), op+" works on the scanner on top of the scanner stack", g.Pos(), "scanners[len-1]", op+" does not take its bytes from the current (decrypting) scanner "+o.why)
+			if okTop {
+				var seq []string
+				for _, k := range o.calls {
+					seq = append(seq, k.what)
 				}
-			})
-			c.check(strings.Join(seq, ",") == "Next,Read", rule, c.fname(g), "readstring skips exactly one delimiter byte, then reads raw bytes", g.Pos(), "Next, Read", "readstring calls "+strings.Join(seq, ",")+" on the scanner; binary data starting with white space or `%` would be misread unless exactly one byte is skipped")
+				got := strings.Join(seq, ",")
+				c.check(got == "next byte,read into the operand", rule, c.fname(g), "readstring skips exactly one delimiter byte, then reads raw bytes", g.Pos(), "Next, Read", "readstring asks the scanner for: "+got+"; binary data starting with white space or `%` would be misread unless exactly one byte is skipped and the rest is read into the string operand")
+			}
 		}
 	}
 }
@@ -303,13 +302,11 @@ func (c *Ctx) beginEexecTable() {
 	scT := c.typeObj("postscript", "scanner")
 	modeF := c.fld("scanner.eexec")
 	keyF := c.fld("scanner.r")
-	eexecFn := c.registry().op("systemdict", "eexec")
-	// the number of lead bytes the operator asks for
+	// the number of lead bytes the operator asks for: the argument with which the operator, evaluated
+	// as in EEXEC-OP (ext_b.go), starts decryption — itself or in a helper
 	ivLen := int64(-1)
-	for _, call := range staticCalls(eexecFn, fn) {
-		if k, isC := constInt(call.Common().Args[1]); isC {
-			ivLen = k
-		}
+	if o := c.eexecCellB(true, "nil", 0); o.begun == 1 && o.begunWith.k == svInt {
+		ivLen = o.begunWith.i
 	}
 	type outcome struct {
 		skipped  bool  // the first byte was skipped as white space
